@@ -20,6 +20,11 @@ CLAIMED = {
         "needed succeeded, and a failed persist leaves nothing persisted (all inputs). The harness records the operations of a fault-free request per endpoint and injects every (operation, occurrence, kind) "
         "singly (thorough: pairs) - a finite, completely enumerated space - checking the fail-closed oracle; metadata/certificate/readiness replies are also compared with the Coq model.",
    category="proof"),
+ "C11": dict(ref="5 C11", technique="Rocq/Coq proof over a router / metadata model interpreted from source expressions extracted by go2v and the generated Endpoint functions + configuration-sweep correspondence",
+   text="C11_from_source (routes, advertised locations, entity-ID / flag / certificate expressions are what the current source says), C11_entity_id, C11_routes (under pairwise distinct route paths every path-configured "
+        "advertised location = issuer without trailing slash + a route served by the corresponding handler), C11_external, C11_first_match (collisions: first registration wins), C11_want_signed (advertised true => no request "
+        "accepted without verified signature, all inputs). Tie: configuration sweep x hosts: handler answering each route and the served entityID / locations vs the model, plus independent oracles (advertised location "
+        "reaches its handler, Issuer = entityID, certificate endpoint = KeyDescriptor = key verifying an assertion, flag vs behaviour). gorilla/mux is modelled as exact first match on the path only."),
  "C12": dict(ref="5 C12", technique="Rocq/Coq proof by symbolic execution of the chain go2v extracts from attribute_query.go + in-Coq correspondence",
    text="C12_answered: for all queries, metadata, user records and key states, an answer with user data implies registered issuer, verified signature value, certificate match when required, "
         "Destination absent or the advertised attribute service, successful user lookup and signing, and the answer is exactly (query ID, requester as audience, user's NameID, filtered attributes); "
